@@ -53,7 +53,7 @@ async fn run_world(wi: u64, mut rng: Rng) -> anyhow::Result<(String, serde_json:
         let key = *rng.pick(&keys);
         let kind = *rng.pick(&[Kind::Lookup, Kind::Lookup, Kind::Put, Kind::Get, Kind::Get]);
         let start_delay = rng.below(40);
-        let val = rng.bytes(rng.range(1, 200) as usize);
+        let vlen = rng.range(1, 200) as usize; let val = rng.bytes(vlen);
         tasks.push((kind, who, tokio::spawn(async move {
             tokio::time::sleep(Duration::from_millis(start_delay)).await;
             let t0 = Instant::now();
